@@ -318,6 +318,12 @@ def run_robust(job, res):
             res.violation(f"start-raises-with-raising-callback:{core.exc_sig(exc)}", f"start with a raising subscribe callback raised {type(exc).__name__}", case)
             continue
         steps = gen.history(rng, version, 40, {"garbage": 0.1, "ctl": 0.15, "sleep": True, "ota": False})
+        # ... and commands that ask for an ack (published with QoS 1): the reply to a request delivered with QoS 1, a
+        # controller command with ack=1
+        tail = [["in", f"9;255;0;0;17;{version}"], ["in", "9;1;0;0;3;relay"], ["in", "9;1;1;0;2;0"], ["in", "9;1;2;1;2;"],
+                ["set", 9, 1, 2, "1", {"ack": 1}], ["in", "9;1;2;1;2;"], ["in", "9;1;2;0;2;"]]
+        at = rng.randint(0, len(steps))
+        steps[at:at] = tail
         import threading
 
         outcome = {}
@@ -328,7 +334,7 @@ def run_robust(job, res):
                     if s[0] == "in":
                         eng.feed(s[1])
                     elif s[0] == "set":
-                        eng.call("set", *s[1:5])
+                        eng.call("set", *s[1:5], **(s[5] if len(s) > 5 and isinstance(s[5], dict) else {}))
                 outcome["done"] = True
             except PumpDied:
                 outcome["died"] = True
@@ -358,7 +364,7 @@ def run_robust(job, res):
                     if s[0] == "in":
                         ref.feed(s[1])
                     elif s[0] == "set":
-                        ref.call("set", *s[1:5])
+                        ref.call("set", *s[1:5], **(s[5] if len(s) > 5 and isinstance(s[5], dict) else {}))
             except PumpDied:
                 res.count("crashes_unrelated_to_callbacks")
                 continue
@@ -366,6 +372,7 @@ def run_robust(job, res):
                           f"a raising {'publish' if eng.pub_raise else 'subscribe'} callback made message processing raise {type(eng.pump_exc).__name__}", dict(case, steps=steps[:30]))
             continue
         res.count("raising_pub_calls", len(eng.pubs) if eng.pub_raise else 0)
+        res.count("raising_pub_calls_of_commands_that_ask_for_an_ack", sum(1 for p_ in eng.pubs if p_[3]) if eng.pub_raise else 0)
         res.count("raising_sub_calls", len(eng.subs) if eng.sub_raise else 0)
         res.nontrivial(("robust", flavour, eng.pub_raise, eng.sub_raise, len(eng.pubs) > 0, len(eng.subs) > 2))
 
@@ -417,7 +424,8 @@ def finish(agg, tier):
         "floors": [("topics_judged", c.get("topics_judged", 0), 20000), ("topics_accepted", c.get("topics_accepted", 0), 1000),
                    ("roundtrips", c.get("roundtrips", 0), 2500), ("required_topics_checked", c.get("required_topics_checked", 0), 3000),
                    ("restored_states_judged", c.get("restored_states_judged", 0), 100),
-                   ("raising_pub_calls", c.get("raising_pub_calls", 0), 100), ("raising_sub_calls", c.get("raising_sub_calls", 0), 100)],
+                   ("raising_pub_calls", c.get("raising_pub_calls", 0), 100), ("raising_sub_calls", c.get("raising_sub_calls", 0), 100),
+                   ("raising_pub_calls_of_commands_that_ask_for_an_ack", c.get("raising_pub_calls_of_commands_that_ask_for_an_ack", 0), 40)],
         "assumptions": ["a command's payload is carriable (no ';', CR, LF, trailing blanks), as in C02",
                         "start() for the MQTT gateways = transport.connect() (which sets up the subscriptions); the poll thread is not started"],
         "show": ["topics_judged", "topics_accepted", "topics_rejected", "roundtrips", "required_topics_checked", "presentations_judged", "restored_states_judged"],
